@@ -173,3 +173,92 @@ def check_registry(ctx, facts, rule):
                'lookup returns exactly what the handler map holds for the hashed path and changes nothing' if good else
                'lookup with %s returns %s (expected %s) or changes the registry' % (lab(pre), gotv, want))
     return True
+
+
+# ---------------------------------------------------------------------------------------------------------------------
+# C13.G3: the key a handler is registered under, and the URI the client sends, as symbolic terms
+# ---------------------------------------------------------------------------------------------------------------------
+def key_hook(interp, name, args, t, body):
+    """service_name() / path() are the symbols svc / path; to_uri_path(a, b) is the term U(a,b); hash(x) is H(x)"""
+    seg = last_seg(name)
+    if name.endswith('::RpcService::service_name'):
+        return ('ref', Cell(('key', 'svc')))
+    if name.endswith('::Handler::path'):
+        return ('ref', Cell(('key', 'path')))
+    if name.startswith('datacake_rpc::') and seg == 'to_uri_path' and len(args) == 2:
+        a, b = interp.deref_all(args[0]), interp.deref_all(args[1])
+        if a is None or b is None or a[0] != 'key' or b[0] != 'key':
+            raise Unmodelled('to_uri_path of something that is not a name')
+        return ('key', 'U(%s,%s)' % (a[1], b[1]))
+    if name.startswith('datacake_rpc::') and seg == 'hash' and args:
+        a = interp.deref_all(args[0])
+        if a is None or a[0] != 'key':
+            raise Unmodelled('hash of something that is not a name')
+        return ('key', 'H(%s)' % a[1])
+    if name in ('alloc::sync::Arc::new', 'alloc::boxed::Box::new') and args:
+        return args[0]
+    if name in ('alloc::string::ToString::to_string', 'alloc::borrow::ToOwned::to_owned', 'core::convert::AsRef::as_ref', 'alloc::string::String::as_str',
+                'core::convert::From::from', 'core::convert::Into::into', 'alloc::str::<impl str>::to_string', 'alloc::str::<impl str>::to_owned',
+                'core::ops::deref::Deref::deref', 'core::borrow::Borrow::borrow') and args:
+        a = interp.deref_all(args[0])
+        if a is not None and a[0] == 'key':
+            return ('ref', Cell(a)) if body.local_ty(t['dest']['l']).startswith('&') else a
+    if name == 'core::clone::Clone::clone' and args:
+        a = interp.deref_all(args[0])
+        if a is not None and a[0] == 'opaque':
+            return a
+    return None
+
+
+def check_keys(ctx, facts, rule):
+    """registry side: new(service); add_handler::<Msg>(); into_handlers() yields exactly {H(U(svc,path)): handler}
+    client side: MessageMetadata{service_name: svc, path: path}.to_uri_path() = U(svc,path)"""
+    from orswot_abs import _fallback
+    import actor_abs
+    R = 'datacake_rpc::'
+    try:
+        reg = [n for n in facts.adts if n.startswith(R) and n.endswith('::ServiceRegistry')]
+        if len(reg) != 1:
+            raise Unmodelled('ServiceRegistry not found')
+        ms = [b for b in facts.bodies.values() if b.crate == 'datacake_rpc' and b.kind in ('method', 'fn') and '::ServiceRegistry::' in b.name and not b.name.startswith('<')]
+        new = [b for b in ms if b.argc == 1 and ty_head(b.local_ty(0)) == reg[0]]
+        add = [b for b in ms if b.argc == 1 and b.local_ty(1).startswith('&mut ') and b.local_ty(0) == '()']
+        fin = [b for b in ms if b.argc == 1 and ty_head(b.local_ty(1)) == reg[0] and 'BTreeMap' in b.local_ty(0) or b.argc == 1 and ty_head(b.local_ty(1)) == reg[0] and 'HashMap' in b.local_ty(0)]
+        if len(new) != 1 or len(add) != 1 or len(fin) != 1:
+            raise Unmodelled('ServiceRegistry new / add_handler / into_handlers not identified by signature (%d/%d/%d)' % (len(new), len(add), len(fin)))
+        mm = [b for b in facts.bodies.values() if b.crate == 'datacake_rpc' and b.kind == 'method' and b.name.endswith('::MessageMetadata::to_uri_path')]
+        mma = facts.adts.get(R + 'request::MessageMetadata')
+        if len(mm) != 1 or mma is None:
+            raise Unmodelled('MessageMetadata::to_uri_path not found')
+
+        def interp_():
+            it = Interp(facts, Order({}), opaque_call=key_hook)
+            it.unknown_call = actor_abs.lenient_unknown
+            it.opaque_fields = True
+            return it
+        it = interp_()
+        r = it.run_body(new[0], [('opaque', 'service')])
+        cell = Cell(r)
+        it.run_body(add[0], [('ref', cell)])
+        m = it.deref_all(it.run_body(fin[0], [cell.v]))
+        if m is None or m[0] != 'map':
+            raise Unmodelled('into_handlers does not yield a map')
+        keys = sorted(m[1].items)
+        it2 = interp_()
+        md = ('adt', R + 'request::MessageMetadata', 0,
+              [Cell(('ref', Cell(('key', 'svc'))) if f['name'] == 'service_name' else ('ref', Cell(('key', 'path'))) if f['name'] == 'path' else ('opaque', f['name']))
+               for f in mma['variants'][0]['fields']])
+        u = it2.deref_all(it2.run_body(mm[0], [('ref', Cell(md))]))
+    except (Unmodelled, absint.NeedChoice, absint.PanicPath, IndexError, TypeError, KeyError, AttributeError) as e:
+        return _fallback(ctx, rule, e)
+    want = 'H(U(svc,path))'
+    ok1 = keys == [want]
+    ctx.ob(rule, 'registry-key', ok1, '%s:%s' % (add[0].file, add[0].line),
+           'a handler for (service svc, message path) ends up in the handler map under hash(to_uri_path(svc, path))' if ok1 else
+           'a handler for (service svc, message path) ends up in the handler map under %s, expected %s: the server looks a request up under hash(request path), '
+           'so the handler is never found (or another message\'s is)' % (keys, want))
+    ok2 = u is not None and u[0] == 'key' and u[1] == 'U(svc,path)'
+    ctx.ob(rule, 'client-uri', ok2, '%s:%s' % (mm[0].file, mm[0].line),
+           'the client addresses a message as to_uri_path(service_name, path)' if ok2 else
+           'the client addresses a message as %s, expected to_uri_path(service_name, path)' % (u[1] if u and u[0] == 'key' else u,))
+    return True
